@@ -72,40 +72,10 @@ def rule_keep_format_token(ctx, prop):
                     ok = bool(_newline_chain(ft, op))
                     what = "text = input.replace(CRLF, LF).replace(LF, configured ending)"
                 else:
-                    ok = False
-                    what = "text = trim_end(input text)"
-                    roots = provenance(ft, op)
-                    helpers = [r for r in roots if r[0] == "call" and not TEXT_COPY.search(r[1])]
-                    if len(helpers) == 1 and not [r for r in roots if r[0] in ("const", "op")]:
-                        h = prog.fn("stylua_lib", helpers[0][1])
-                        t = ft.blocks[helpers[0][2]]["term"]
-                        if h is not None and h.argc == 1:
-                            hroots = provenance(h, {"cp": {"l": 0}}, through=None)
-                            # the helper's result is its argument, possibly through trim_end
-                            calls = [r for r in hroots if r[0] == "call"]
-                            inner_ok = all(TRIM_ONLY.search(r[1]) for r in calls) and \
-                                not [r for r in hroots if r[0] in ("const", "op", "agg")]
-                            # follow the receiver chain down to the argument
-                            cur = {"cp": {"l": 0}}
-                            hops = 0
-                            while inner_ok and hops < 6:
-                                rs = provenance(h, cur, through=None)
-                                if rs == {("arg", 1)}:
-                                    break
-                                cs = [r for r in rs if r[0] == "call"]
-                                if len(cs) != 1 or len(rs) != 1:
-                                    inner_ok = False
-                                    break
-                                cur = h.blocks[cs[0][2]]["term"]["args"][0]
-                                hops += 1
-                            else:
-                                inner_ok = False
-                            ap = access_path(ft, t["args"][0])
-                            ok = inner_ok and ap[1][-2:] == (("v", var), ("f", fname))
-                    elif not helpers and not [r for r in roots if r[0] in ("const", "op")]:
-                        ap = access_path(ft, op)
-                        ok = (("v", var), ("f", fname)) == ap[1][-2:]
-                        what = "text copied from the input token"
+                    what = "text = trim_end(input text) or the input text"
+                    res_ = _text_ops(prog, ft, op)
+                    ok = res_ is not None and set(res_[0]) <= {"trim_end"} and \
+                        res_[1][1][-2:] == (("v", var), ("f", fname))
                 rep.inst(f"{ft.key} {var}.{fname}: {what}", None, cfg, ok=ok)
                 if not ok:
                     rep.violation(f"{ft.key} comment-field-rewritten {var}.{fname}",
@@ -116,6 +86,48 @@ def rule_keep_format_token(ctx, prop):
         # what must not happen is that the arms disappear unnoticed while the floor still passes
         rep.floor("comment kinds rebuilt explicitly by format_token", len(seen), 3, cfg)
     return rep
+
+
+def _text_ops(prog, f, op, depth=0, subst=None):
+    """walk a text value back to where it comes from: (list of non-copy operations met, access path of the source),
+    through copies (`into`, `to_owned`, deref, ...), `trim_end`, and local helper functions that return a
+    transformation of one of their parameters. None when something else is met."""
+    ops = []
+    cur = op
+    for _ in range(12):
+        rs = [r for r in provenance(f, cur, through=None) if not (r[0] == "agg" and r[1] in ("tuple", "array"))]
+        calls = [r for r in rs if r[0] == "call"]
+        if [r for r in rs if r[0] in ("const", "op", "agg")]:
+            return None
+        if not calls:
+            ap = access_path(f, cur)
+            if ap[0][0] == "arg" and subst is not None:
+                return ops, ("param", ap[0][1], ap[1])
+            return ops, ap
+        if len(calls) != 1:
+            return None
+        t = f.blocks[calls[0][2]]["term"]
+        c = callee(t)
+        if re.search(r"<impl str>::trim_end$", c):
+            ops.append("trim_end")
+            cur = t["args"][0]
+        elif re.search(r"Token::token_type$", c):
+            return ops, access_path(f, cur)
+        elif TEXT_COPY.search(c):
+            cur = t["args"][0]
+        else:
+            h = prog.fn(f.crate, c)
+            if h is None or depth > 2:
+                return None
+            inner = _text_ops(prog, h, {"cp": {"l": 0}}, depth + 1, subst=True)
+            if inner is None or inner[1][0] != "param" or inner[1][2]:
+                return None
+            ops += inner[0]
+            k = inner[1][1]
+            if k - 1 >= len(t["args"]):
+                return None
+            cur = t["args"][k - 1]
+    return None
 
 
 def _recv_calls(f, t):
@@ -253,6 +265,16 @@ def _pred_dropped_kinds(prog, rep, cfg, pf, outcome):
     return kinds
 
 
+def switch_users(f, l):
+    """switch blocks whose scrutinee is (a projection of) local l"""
+    out = []
+    for b in range(len(f.blocks)):
+        si = switch_info(f, b)
+        if si and si["place"].get("l") == l:
+            out.append(b)
+    return out
+
+
 def rule_keep_eof(ctx, prop):
     rep = Report(prop, "R-KEEP(c)", "format_eof only empties the EOF token's trivia, and pop_until_no_whitespace only "
                                     "discards, when the discarded trivia is Whitespace")
@@ -341,5 +363,21 @@ def rule_keep_eof(ctx, prop):
                     rep.violation(f"{p.key} popped-non-whitespace",
                                   "pop_until_no_whitespace discards a popped trivia token on a path where it is not known "
                                   "to be Whitespace: a trailing comment at the end of the file is deleted", p.loc(), cfg)
+            # loop form: `while let Some(Whitespace) = trivia.last().map(kind) { trivia.pop(); }` - the pop is executed
+            # only under a match of the last element's kind against Whitespace
+            for b, t in p.calls():
+                if re.search(r"Vec::<T, A>::pop$", callee(t)):
+                    examined = any(u[0] in ("switch", "discr", "field") for u in forward_uses(p, t["dst"]["l"])) or \
+                        bool(switch_users(p, t["dst"]["l"]))
+                    if examined:
+                        continue
+                    g = guarded_by_variant(p, b, "TokenKind", "Whitespace") or guarded_by_variant(p, b, "TokenType", "Whitespace")
+                    m += 2
+                    rep.inst(f"{p.key} unexamined pop is guarded by kind == Whitespace", None, cfg, ok=bool(g))
+                    if not g:
+                        rep.violation(f"{p.key} popped-non-whitespace",
+                                      "pop_until_no_whitespace discards the last trivia token without having established "
+                                      "that it is Whitespace: a trailing comment at the end of the file is deleted",
+                                      p.loc(t["sp"]), cfg)
             rep.floor("pop paths of pop_until_no_whitespace", m, 2, cfg)
     return rep
